@@ -286,7 +286,8 @@ def configs(tier):
         # movies
         mv = [dict(times=[0, 1], bins=None, n_time=2), dict(times=[0.0, 0.5, 1.0], bins=[[0.0, 0.5], [1.0]], n_time=3)]
         if tier != 'quick':
-            mv += [dict(times=[0, 1, 1], bins=None, n_time=3), dict(times=[0, 1, 2], bins=[[0], [1, 2]], n_time=3),
+            # repeated time values are not supported by time_as_observations (raises) -> inadmissible, not enumerated
+            mv += [dict(times=[0, 1, 2], bins=[[0], [1, 2]], n_time=3),
                    dict(times=[2, 0, 1], bins=None, n_time=3)]
         for m in mv:
             for pat in ([(0, 1, 0)] if tier == 'quick' else [(0, 1, 0), (1, 0, 2, 1), (0, 1, 2)]):
